@@ -35,6 +35,10 @@ pub fn drive(args: &[String]) {
         // payload sizes: 1 chunk, exactly 1 / 2 chunks (pixel count multiple of 768), 3 chunks
         let mut pool: Vec<Image> = vec![mk(1, 1), mk(3, 2), big.crop(1..4, 2..5), big.clone(), mk(0, 0), big.crop(.., 1..2), big.crop(2..3, ..)];
         pool.push(Image::new(SurfaceOwned::new_with(Size::new(3, 4), |p| RGBA::new(p.row as u8 * 10, p.col as u8 * 10, 7, 255)).transpose()));
+        // equal content in separate allocations (Image equality is pointer identity; the terminal keys images by content id)
+        let redo = |img: &Image| { let px: Vec<RGBA> = img.iter().copied().collect(); let w = img.width(); Image::from(SurfaceOwned::new_with(img.size(), |p| px[p.row * w + p.col])) };
+        pool.push(redo(&pool[1]));
+        pool.push(redo(&pool[2]));
         match hid % 4 {
             0 => pool.push(mk(24, 32)),
             1 => pool.push(mk(40, 41)),
@@ -44,6 +48,8 @@ pub fn drive(args: &[String]) {
         rnd.next();
         let positions = [(0usize, 0usize), (0, 1), (1, 0), (7, 7), (65535, 0), (0, 65535), (65535, 65535), (24, 79), (0, 0), (1, 1), (65534, 65535)];
         let px: Vec<Vec<u8>> = pool.iter().map(pixels).collect();
+        // images are the same image for the terminal iff their content is: histories speak about the first pool entry with that content
+        let canon: Vec<usize> = (0..pool.len()).map(|i| (0..=i).find(|j| px[*j] == px[i] && pool[*j].size() == pool[i].size()).unwrap()).collect();
         let steps = 1 + rnd.below(8);
         let script: Vec<(usize, usize, usize)> = (0..steps).map(|_| (rnd.below(pool.len()), rnd.below(positions.len()), rnd.below(10))).collect();
         let res = guarded(|| {
@@ -60,10 +66,10 @@ pub fn drive(args: &[String]) {
                     if let (Some(id), Some(p)) = (scan_num(&buf, b"i="), scan_num(&buf, b"p=")) {
                         last[*ii] = Some((id, p, (r, c)));
                     }
-                    ops.push(json!({"op": "draw", "img": ii, "w": img.width(), "h": img.height(), "r": r, "c": c, "bytes": buf, "id": [], "hasp": false}));
+                    ops.push(json!({"op": "draw", "img": canon[*ii], "alloc": ii, "w": img.width(), "h": img.height(), "r": r, "c": c, "bytes": buf, "id": [], "hasp": false}));
                 } else if *kind < 7 {
                     h.erase(&mut buf, img, Some(Position::new(r, c))).unwrap();
-                    ops.push(json!({"op": "erase", "img": ii, "w": img.width(), "h": img.height(), "r": r, "c": c, "bytes": buf, "id": [], "hasp": false}));
+                    ops.push(json!({"op": "erase", "img": canon[*ii], "alloc": ii, "w": img.width(), "h": img.height(), "r": r, "c": c, "bytes": buf, "id": [], "hasp": false}));
                 } else if let Some((id, p, (lr, lc))) = last[*ii].clone() {
                     // the terminal answers the last put of this image with an error, with or without placement id
                     let hasp = *kind == 7;
@@ -74,7 +80,7 @@ pub fn drive(args: &[String]) {
                     };
                     let handled = h.handle(&mut buf, &ev).unwrap();
                     assert!(handled, "kitty handler did not consume its own response");
-                    ops.push(json!({"op": "error", "img": ii, "w": img.width(), "h": img.height(), "r": lr, "c": lc, "bytes": buf, "id": id, "hasp": hasp}));
+                    ops.push(json!({"op": "error", "img": canon[*ii], "alloc": ii, "w": img.width(), "h": img.height(), "r": lr, "c": lc, "bytes": buf, "id": id, "hasp": hasp}));
                 }
             }
             ops
